@@ -64,8 +64,10 @@ def truthy_zero(ck, rels, rule='TRUTHY-zero'):
             for node in walk_local(fn):
                 hits = []
                 if isinstance(node, ast.BoolOp) and isinstance(node.op, ast.Or) and _zero_legit(node.values[0]):
-                    parent = module.parent.get(id(node))
-                    in_test = isinstance(parent, (ast.If, ast.While, ast.IfExp)) and parent.test is node
+                    parent, child = module.parent.get(id(node)), node
+                    while isinstance(parent, (ast.BoolOp, ast.UnaryOp)) and not (isinstance(parent, ast.UnaryOp) and not isinstance(parent.op, ast.Not)):
+                        parent, child = module.parent.get(id(parent)), parent
+                    in_test = isinstance(parent, (ast.If, ast.While, ast.IfExp)) and parent.test is child
                     only_get = isinstance(node.values[0], ast.Call) and len(node.values[0].args) == 1 and \
                         not (isinstance(node.values[0].args[0], ast.Constant) and node.values[0].args[0].value in ZERO_LEGIT_KEYS)
                     if not (in_test and only_get):
